@@ -69,6 +69,21 @@ def classify(lin, z, row, s_du, observed, ps, dspec, correct):
     return ["value-mismatch"]
 
 
+_POOL = []
+
+
+def _close_pool():
+    for p_ in _POOL:
+        try:
+            p_.close()
+        except Exception:
+            pass
+
+
+import atexit
+atexit.register(_close_pool)
+
+
 def run(ctx):
     from thejoker import TheJoker
     ncfg = ctx.n(36, 160)
@@ -83,6 +98,10 @@ def run(ctx):
             n_off = int(rng.integers(10, 13))
             dspec = gen.gen_data_spec(rng, n_surveys=n_off + 1, n_epochs=n_off + 1 + int(rng.integers(0, 6)), layout="disjoint")
             dspec["form"], dspec["keys"] = "list", None
+        elif i % 12 == 5:
+            # one data set without a reference epoch (RVData(..., t_ref=False)): evaluated through the cache and worker processes
+            n_off = 0
+            dspec = gen.gen_data_spec(rng, n_surveys=1, t_ref_kind="none")
         else:
             dspec = gen.gen_data_spec(rng, n_surveys=n_off + 1)
         ps = gen.gen_prior_spec(rng, dspec["unit"], n_offsets=n_off)
@@ -92,7 +111,7 @@ def run(ctx):
         rows = gen.gen_rows(rng, nrows, dspec, e_class=e_class)
         du = dspec["unit"]
         s_du = np.array([gen.conv(x, "km/s", du) for x in rows["s_kms"]])
-        in_memory = bool(rng.random() < 0.5)
+        in_memory = bool(rng.random() < 0.5) and not (i % 12 == 5)
         desc = dict(index=i, n_epochs=nep, n_surveys=n_off + 1, form=dspec["form"], unit=du, layout=dspec["layout"],
                     t_ref_kind=dspec["t_ref_kind"], poly_trend=ps["poly_trend"], K=ps["K"], P_unit=ps["P_unit"],
                     in_memory=in_memory, e_class=e_class, err_scale_kms=dspec["err_scale_kms"])
@@ -119,8 +138,18 @@ def run(ctx):
                 samples["v0"] = rng.normal(size=nrows) * gen.U(du)
             # rows exactly as the kernel sees them (internal units => no conversion)
             s_seen = samples["s"].to_value(gen.U(du))
-            joker = TheJoker(prior, rng=np.random.default_rng(1))
-            ll = np.asarray(joker.marginal_ln_likelihood(data, samples, in_memory=in_memory), dtype=float)
+            # the cache path also through worker processes (data and helper are pickled to them): always for data without a
+            # reference epoch (t_ref=False), now and then otherwise
+            use_mp = (not in_memory) and ctx.variant == "plain" and (dspec["t_ref_kind"] == "none" or rng.random() < 0.08)
+            if use_mp and not _POOL:
+                import schwimmbad
+                _POOL.append(schwimmbad.MultiPool(processes=2))
+            desc["multipool"] = bool(use_mp)
+            joker = TheJoker(prior, rng=np.random.default_rng(1), **({"pool": _POOL[0]} if use_mp else {}))
+            ll = np.asarray(joker.marginal_ln_likelihood(data, samples, in_memory=in_memory,
+                                                         **({"n_batches": int(rng.choice([2, 3]))} if use_mp else {})), dtype=float)
+            if use_mp:
+                ctx.count("values_through_worker_processes", nrows)
         except Exception as e:
             ctx.exception(e, "marginal_ln_likelihood on valid input", dict(desc, dspec=dspec, ps=ps))
             continue
